@@ -89,9 +89,12 @@ class ForcePlatformsCalibrationDataBlock(Block):
         **kwargs,
     ) -> None:
         super().__init__(**kwargs)
-        self._platforms: List[ForcePlatformInfo] = platforms or []
+        self._platforms: List[ForcePlatformInfo] = []
         self._platformMap = []
         self.format = format
+        # every platform needs a channel: go through add_platform
+        for platform in platforms or []:
+            self.add_platform(platform)
 
     @staticmethod
     def _build(stream, format) -> "ForcePlatformsCalibrationDataBlock":
